@@ -15,6 +15,9 @@ pub fn location_caller() -> (r: pavex_bp_schema::Location) ensures r == caller_l
 
 /// Cow<'static, str> (reflection::Sources)
 #[verifier::external_body] pub struct CowStr { _p: u8 }
+pub uninterp spec fn cow_text(c: &CowStr) -> Seq<char>;
+impl View for CowStr { type V = Seq<char>; open spec fn view(&self) -> Seq<char> { cow_text(self) } }
+impl CowStr { #[verifier::external_body] pub fn into_owned(self) -> (r: String) ensures r@ == self@ { unimplemented!() } }
 /// std: `impl From<&str> for String` copies the characters (also reached through `.into()`)
 pub assume_specification<'a>[<String as From<&'a str>>::from](s: &str) -> (r: String) ensures r@ == s@;
 pub mod axioms { use super::*;
